@@ -159,6 +159,12 @@ def install():
     def patched(self):
         f = _orig(self)
         name = self.name
+        if name is None:
+            # forward sampler of an ADEV primitive (pure continuations sample later sites plainly)
+            ap = getattr(self, "primitive_params", {}).get("adev_prim") if isinstance(getattr(self, "primitive_params", None), dict) else None
+            if ap is not None:
+                kf = getattr(getattr(ap, "keyful_sample_function", None), "value", None)
+                name = "ADEV:" + (getattr(kf, "__name__", None) or type(ap).__name__)
         sample_shape = tuple(self.sample_shape)
 
         def sampler(key, *args, **kwargs):
